@@ -191,6 +191,7 @@ func (in *Interp) registerIntrinsics(reg func(string, extFn)) {
 	})
 	r("vfFreeze", func(in *Interp, fr *frame, fn *ssa.Function, args []Value) Value {
 		// freeze package globals plus everything reachable from the arguments
+		in.frozenLax = true
 		in.frozen = map[*Value]bool{}
 		in.frozenMaps = map[*MapV]bool{}
 		in.frozenHits = nil
@@ -209,6 +210,7 @@ func (in *Interp) registerIntrinsics(reg func(string, extFn)) {
 	})
 	r("vfSharedWrites", func(in *Interp, fr *frame, fn *ssa.Function, args []Value) Value {
 		// run f with the package state and everything reachable from the roots frozen; count stores into them
+		in.frozenLax = false
 		in.frozen = map[*Value]bool{}
 		in.frozenMaps = map[*MapV]bool{}
 		in.frozenHits = nil
